@@ -51,6 +51,23 @@ HAND = {
          r'\(-self\._index - second\._index\) % 3', '(self._index - second._index) % 3', 'C14.a'),
         ('relative-index-reversed', 'break', CC + 'ops/pauli_gates.py', 'Pauli.relative_index',
          r'self\._index - second\._index \+ 1', 'second._index - self._index + 1', 'C14.a'),
+        ('dps-interpretation-drops-coefficient', 'break', CC + 'ops/dense_pauli_string.py', '_try_interpret_as_dps',
+         r', coefficient=ps\.coefficient', '', 'C14.i'),
+        ('pauli-shortcut-ignores-global-shift', 'break', CC + 'ops/pauli_string.py', '_try_interpret_as_pauli_string',
+         r'shift = op\.gate\.global_shift', 'shift = 0', 'C14.j'),
+        ('phasor-parity-over-identity-qubits', 'break', CC + 'ops/pauli_string_phasor.py', 'PauliStringPhasorGate._decompose_',
+         r'xor_nonlocal_decompose\(support, any_qubit\)', 'xor_nonlocal_decompose(qubits, any_qubit)', 'C14.k'),
+        ('phasor-rotation-on-wrong-eigenspace', 'break', CC + 'ops/pauli_string_phasor.py', 'PauliStringPhasorGate._decompose_',
+         r'pauli_gates\.Z\(any_qubit\) \*\* self\.exponent_neg', 'pauli_gates.Z(any_qubit) ** self.exponent_pos', 'C14.k'),
+        ('lineardict-isub-default-tolerance', 'break', CC + 'value/linear_dict.py', 'LinearDict.__isub__',
+         r'self\.clean\(atol=0\)', 'self.clean()', 'C14.g'),
+        ('inplace-conjugation-keeps-old-sign', 'break', CC + 'ops/pauli_string.py', 'MutablePauliString.inplace_before',
+         r'self\.coefficient = conjugated\.coefficient', 'pass', 'C14.f'),
+        ('frozen-drops-coefficient', 'break', CC + 'ops/pauli_string.py', 'MutablePauliString.frozen',
+         r'coefficient=self\.coefficient,\s*', '', 'C14.i'),
+        ('phasor-support-by-loop', 'twin', CC + 'ops/pauli_string_phasor.py', 'PauliStringPhasorGate._decompose_',
+         r'support = \[q for q, p in zip\(qubits, self\.dense_pauli_string\.pauli_mask\) if p\]',
+         'support = []\n        for q, p in zip(qubits, self.dense_pauli_string.pauli_mask):\n            if p != 0:\n                support.append(q)', None),
         ('eigen-map-z-swapped', 'break', CC + 'ops/pauli_interaction_gate.py', None,
          r'pauli_gates\.Z: \(np\.diag\(\[1, 0\]\), np\.diag\(\[0, 1\]\)\)', 'pauli_gates.Z: (np.diag([0, 1]), np.diag([1, 0]))', 'C14.c'),
     ],
